@@ -302,6 +302,11 @@ def build_universe(fa, extra_targets=()):
             if func in ta and ta[func]:
                 sig = [x if isinstance(x, str) else x.__name__ for x in ta[func][0]]
                 out.append(dict(target=t, func=func, sig=sig, sigidx=0, params={"__rename__": True}))
+                out.append(dict(target=t, func=func, sig=sig, sigidx=0, params={"__pipeline__": "legacy"}))
+                out.append(dict(target=t, func=func, sig=sig, sigidx=0, params={"__pipeline__": "combined"}))
+                out.append(dict(target=t, func=func, sig=sig, sigidx=0, params={"__override_name__": True}))
+                if t in ("python", "numpy", "cpp", "xla_client"):
+                    out.append(dict(target=t, func=func, sig=sig, sigidx=0, params={"__tab__": "    "}))
                 if t == "numpy":
                     out.append(dict(target=t, func=func, sig=sig, sigidx=0, params={"__force_cast__": False}))
         if t in ("numpy", "cpp", "python"):
@@ -339,6 +344,8 @@ def print_options(req_params, func):
     if req_params:
         if "__force_cast__" in req_params:
             kw["force_cast_arguments"] = req_params["__force_cast__"]
+        if "__tab__" in req_params:
+            kw["tab"] = req_params["__tab__"]
         if req_params.get("__rename__"):
             name = func + "_0"  # what results/update.py does: graph.props.update(name=f"{func_name}_{i}")
     return kw, name
